@@ -12,7 +12,8 @@ import (
 
 // C19 wire (mirror of coq/theories/C19_Wire.v)
 //
-//	input  = kind :: init :: concat [code a b]          kind 0 = SList, 1 = DList (+4: at string, +8: at a struct, see c19New)
+//	input  = kind :: init :: concat [code a b]          kind 0 = SList, 1 = DList (+4: at string, +8: at a struct, see c19New;
+//	                                                    +12 / +16 / +20: at float64 / a struct with a float field / any, values are element CODES, see c19nan.go)
 //	codes: 1 Unshift a   2 Append a   3 InsertAfter(Find a, b)   4 InsertBefore(Find a, b)
 //	       5 Replace(a, b)   6 Delete(Find a)   7 Shift   8 Pop   9 Find a
 //	       10 First   11 Last   12 Clear
@@ -75,6 +76,12 @@ func errRes(err error) []int64 {
 // Delete.  Every operation of the harness goes through a codec int -> T (enc) and back (dec), so the
 // wire and the model are the same for every instantiation; enc builds a NEW value for every use.
 func c19NewSG[T comparable](v int, enc func(int) T, dec func(T) int) *c19List {
+	return c19NewSGEq(v, enc, dec, func(found, asked int) bool { return found == asked })
+}
+
+// same(found, asked): does the node Find returned carry a value that is == to the one asked for
+// (the identity of codes, except for the element types of c19nan.go)
+func c19NewSGEq[T comparable](v int, enc func(int) T, dec func(T) int, same func(found, asked int) bool) *c19List {
 	l := list.Init(enc(v))
 	return &c19List{
 		each: func(fn func(int)) { l.Each(func(x T) { fn(dec(x)) }) },
@@ -101,7 +108,7 @@ func c19NewSG[T comparable](v int, enc func(int) T, dec func(T) int) *c19List {
 				l.Pop()
 			case c19Find:
 				n, ok := l.Find(enc(a))
-				if ok && (n == nil || dec(n.Value) != a) {
+				if ok && (n == nil || !same(dec(n.Value), a)) {
 					return []int64{0, 7} // found a node that does not carry the value
 				}
 				return []int64{0, b2i(ok)}
@@ -114,6 +121,10 @@ func c19NewSG[T comparable](v int, enc func(int) T, dec func(T) int) *c19List {
 }
 
 func c19NewDG[T comparable](v int, enc func(int) T, dec func(T) int) *c19List {
+	return c19NewDGEq(v, enc, dec, func(found, asked int) bool { return found == asked })
+}
+
+func c19NewDGEq[T comparable](v int, enc func(int) T, dec func(T) int, same func(found, asked int) bool) *c19List {
 	l := list.InitDList(enc(v))
 	return &c19List{
 		dlist: true,
@@ -146,7 +157,7 @@ func c19NewDG[T comparable](v int, enc func(int) T, dec func(T) int) *c19List {
 				l.Pop()
 			case c19Find:
 				n, ok := l.Find(enc(a))
-				if ok && (n == nil || dec(n.Value) != a) {
+				if ok && (n == nil || !same(dec(n.Value), a)) {
 					return []int64{0, 7}
 				}
 				return []int64{0, b2i(ok)}
@@ -238,7 +249,7 @@ func c19DecRec(r c19Rec) int {
 	return v
 }
 
-var c19InstNames = []string{"int", "string", "struct{Name string; N int}"}
+var c19InstNames = []string{"int", "string", "struct{Name string; N int}", "float64", "struct{X float64; N int}", "any"}
 
 // c19New builds the list for a wire kind: base = kind%4 (0 SList, 1 DList, 2/3 the same with
 // checkpointed records), instance = kind/4.
@@ -261,7 +272,7 @@ func c19New(kind, v int) *c19List {
 		}
 		return c19NewSG(v, c19EncRec, c19DecRec)
 	}
-	return nil
+	return c19NewNaN(kind, v) // instances 3..5: element types whose == is not the identity (c19nan.go)
 }
 
 // c19Guard runs f; reports a panic, or a hang when f gave up through c19Hang.
@@ -293,7 +304,7 @@ func c19Run(in []int64, out *[]int64, mu *sync.Mutex, abandoned *bool) {
 	}
 	r := &R{w: in}
 	kind, init := r.Int(), r.Int()
-	if kind < 0 || kind > 11 {
+	if kind < 0 || kind > 23 {
 		emit(-999999)
 		return
 	}
@@ -705,6 +716,7 @@ func genC19(g *Gen) {
 	genC19Duplicates(g)
 	genC19Large(g)
 	genC19Instances(g)
+	genC19NaN(g)
 
 	// malformed: outside the property's quantifier but inside the model — values
 	// that repeat (Replace/insert of a value already present), absent handles
@@ -1193,28 +1205,35 @@ func describeC19(in []int64) string {
 	}
 	var sb strings.Builder
 	inst := ""
-	if k := in[0] / 4; in[0] >= 4 && in[0] <= 11 {
+	if k := in[0] / 4; in[0] >= 4 && in[0] <= 23 {
 		inst = "[" + c19InstNames[k] + "]"
 	}
+	nan := in[0] >= 12 && in[0] <= 23
+	d := func(v int64) string {
+		if nan {
+			return c19CodeName(v)
+		}
+		return fmt.Sprint(v)
+	}
 	if in[0]%2 == 0 {
-		fmt.Fprintf(&sb, "l := list.Init%s(%d)", inst, in[1])
+		fmt.Fprintf(&sb, "l := list.Init%s(%s)", inst, d(in[1]))
 	} else {
-		fmt.Fprintf(&sb, "l := list.InitDList%s(%d)", inst, in[1])
+		fmt.Fprintf(&sb, "l := list.InitDList%s(%s)", inst, d(in[1]))
 	}
 	rest := in[2:]
 	one := func(i int) string {
 		code, a, b := int(rest[i]), rest[i+1], rest[i+2]
 		switch code {
 		case c19Unshift, c19Append:
-			return fmt.Sprintf("l.%s(%d)", c19Names[code], a)
+			return fmt.Sprintf("l.%s(%s)", c19Names[code], d(a))
 		case c19InsertAfter, c19InsertBefore:
-			return fmt.Sprintf("l.%s(Find(%d), %d)", c19Names[code], a, b)
+			return fmt.Sprintf("l.%s(Find(%s), %s)", c19Names[code], d(a), d(b))
 		case c19Replace:
-			return fmt.Sprintf("l.Replace(%d, %d)", a, b)
+			return fmt.Sprintf("l.Replace(%s, %s)", d(a), d(b))
 		case c19Delete:
-			return fmt.Sprintf("l.Delete(Find(%d))", a)
+			return fmt.Sprintf("l.Delete(Find(%s))", d(a))
 		case c19Find:
-			return fmt.Sprintf("l.Find(%d)", a)
+			return fmt.Sprintf("l.Find(%s)", d(a))
 		case c19Look:
 			return "LOOK"
 		}
@@ -1251,7 +1270,9 @@ func describeC19(in []int64) string {
 		}
 		i = j
 	}
-	if inst != "" {
+	if nan {
+		sb.WriteString("   [0 is the zero value of the element type; every NaN is built with a new payload; struct values are {float64(v/2), v%2}, any values int(v)]")
+	} else if inst != "" {
 		sb.WriteString("   [every value v is built anew for each use: " + map[bool]string{true: `"" for 0, "#v" otherwise`, false: `{} for 0, {"#v/2", v%2} otherwise`}[in[0]/4 == 1] + "]")
 	}
 	if in[0]%4 >= 2 {
@@ -1275,9 +1296,12 @@ func init() {
 			"call results recorded at every step, Each and First/Last at checkpoint lengths 32k-1..32k+2 and others); " +
 			"other element types (SList/DList[string] and a comparable struct with a string field, every value built anew for each use so that equal values never share storage; " +
 			"the same wire, decoded back to ints: every full-alphabet history up to 3 steps (thorough 4), mutators one step further, every history over the values {1,2} up to 3 (4) steps, random ones and a few long lists); " +
+			"element types whose == is not the identity of values (nan-exhaustive, nan-random: SList/DList[float64], [struct{X float64; N int}] and [any]; element codes for NaN — a new payload at every use —, -0.0 next to +0.0, " +
+			"and in the any instance two slices (comparing them panics) and a map: every history up to 2 steps (thorough: 3 at float64) over the whole alphabet {NaN, -0.0 / []int{1}, []int{2}, zero value, 1} as first element, inserted value and look-up argument, observers and Clear included, " +
+			"every history of 3 steps over the mutators from a special first element; seeded random histories of 20..80 steps, a third of them with checkpointed records; a look-up that panics ends the history); " +
 			"a malformed stream (repeating values, absent handles, methods the list type lacks). " +
 			"non-trivial = an operation that replaces the embedded head node (Unshift, Shift, Delete or InsertBefore at the head) " +
-			"is followed later by InsertAfter/InsertBefore/Delete through a Find handle on a present node",
+			"is followed later by InsertAfter/InsertBefore/Delete through a Find handle on a present node; in the nan streams: a mutator runs while the list holds a NaN, a -0.0 or a non-comparable value",
 		Exec:     execC19,
 		Gen:      genC19,
 		Describe: describeC19,
